@@ -173,7 +173,7 @@ pub fn accesses(op: &Op) -> Vec<Acc> {
         Op::EventNew { ev, .. } => vec![Excl(*ev)],
         Op::AddEventFrom { slot: Some(s), ev } => vec![Read(*s), Excl(*ev)],
         Op::AddEventFrom { slot: None, ev } => vec![Excl(*ev)],
-        Op::UnwindScope { slot, .. } | Op::ScopeBurst { slot, .. } | Op::Twin { slot: Some(slot), .. } => vec![Read(*slot)],
+        Op::UnwindScope { slot, .. } | Op::ScopeBurst { slot, .. } | Op::SpanBurst { slot, .. } | Op::Twin { slot: Some(slot), .. } => vec![Read(*slot)],
         Op::Push { slot, set } => vec![Read(*slot), Read(*set)],
         Op::ToRecords { set, .. } => vec![Read(*set)],
         Op::NewTask { task, span, .. } => {
@@ -506,6 +506,24 @@ pub fn exec_op(ctx: &mut ThreadCtx, idx: usize, op: OpRef, o: &Op, inner: &[Op])
         }
         Op::Cycle => {
             fv::run_collector_cycle();
+            Ret::None
+        }
+        Op::CycleBurst { n } => {
+            for _ in 0..*n {
+                fv::run_collector_cycle();
+            }
+            Ret::None
+        }
+        Op::SpanBurst { slot, n } => {
+            let name = span_name(case.str_seed, op);
+            let parent = slot_span(&sh, *slot);
+            sim::no_yield(true);
+            for _ in 0..*n {
+                let c = Span::enter_with_parent(name.clone(), parent);
+                learn(ctx, op, &c);
+                drop(c);
+            }
+            sim::no_yield(false);
             Ret::None
         }
         Op::Sleep { ns } => {
